@@ -183,7 +183,8 @@ def read_a(env, case, img, exp, st):
                     bad.append(("a", "xattrs", G.s(p), "key %s twice" % k))
                 gxd[k] = bytes.fromhex(v)
             if gxd != e.xattrs:
-                bad.append(("a", "xattrs", G.s(p), xdiff(e.xattrs, gxd)))
+                txt, info = xdiff(e.xattrs, gxd)
+                bad.append(("a", "xattrs", G.s(p), txt, info))
     # contents, straight from the image bytes
     bs = sup["block_size"]
     for p, e in exp.items():
@@ -222,15 +223,19 @@ def read_a(env, case, img, exp, st):
 
 
 def xdiff(want, got):
-    parts = []
+    """(text, info): info = {"only_missing_empty": bool} tells whether the only difference is that empty-valued keys are absent"""
+    parts, only_missing_empty = [], True
+    short = lambda k: k if len(k) <= 48 else k[:45] + "..."
     for k in sorted(set(want) | set(got)):
         if k not in got:
-            parts.append("missing %s (%d bytes)" % (k, len(want[k])))
+            parts.append("missing %s (%d bytes)" % (short(k), len(want[k])))
+            if len(want[k]) != 0:
+                only_missing_empty = False
         elif k not in want:
-            parts.append("unexpected %s" % k)
+            parts.append("unexpected %s" % short(k)); only_missing_empty = False
         elif want[k] != got[k]:
-            parts.append("%s: value %s, expected %s" % (k, got[k][:24].hex(), want[k][:24].hex()))
-    return "; ".join(parts)[:400]
+            parts.append("%s: value %s, expected %s" % (short(k), got[k][:24].hex(), want[k][:24].hex())); only_missing_empty = False
+    return "; ".join(parts)[:600], {"only_missing_empty": bool(parts) and only_missing_empty}
 
 
 def cmp_fields(e, typ, mode, uid, gid, mtime, target, dev, size):
@@ -689,7 +694,8 @@ def read_e(env, case, img, exp, wd, st):
             except OSError as ex:
                 bad.append(("e", "xattrs", G.s(p), "cannot read xattrs of the unpacked node: %s" % ex)); continue
             if gx != e.xattrs:
-                bad.append(("e", "xattrs", G.s(p), "unpacked: " + xdiff(e.xattrs, gx)))
+                txt, info = xdiff(e.xattrs, gx)
+                bad.append(("e", "xattrs", G.s(p), "unpacked: " + txt, info))
             elif e.xattrs:
                 st["e_xattr_nodes"] = st.get("e_xattr_nodes", 0) + 1
     for p in seen:
